@@ -420,6 +420,46 @@ def seed_sweep_case(ctx, rng, idx):
         seen[key] = sd
 
 
+def shared_generator_case(ctx, rng, idx):
+    """one Generator handed to many successive PriorPredictiveModel.sample
+    calls: the generator is advanced, so no two samples of any two calls
+    may carry the same noise.  The prior is (numerically) a point mass, so
+    samples differ only through their noise and equal noise shows as equal
+    value vectors."""
+    pm, x = _pm(rng, n_out=1)
+    prior = pints.ComposedLogPrior(*[
+        pints.UniformLogPrior(float(v), float(v) * (1 + 1e-13) + 1e-300)
+        for v in x])
+    ppm = chi.PriorPredictiveModel(pm, prior)
+    n = 40
+    k = 250 if ctx.tier == 'quick' else 700
+    gen = np.random.default_rng(int(rng.integers(2 ** 31)))
+    feats = {'entry_point': 'PriorPredictiveModel', 'calls': k,
+             'n_samples': n}
+    ctx.case(('shared_generator', 'PriorPredictiveModel'), True,
+             sample=feats)
+    seen = {}
+    for c in range(k):
+        try:
+            df = ppm.sample(TIMES, n_samples=n, seed=gen)
+        except Exception as e:      # noqa
+            ctx.violation_exc('sampling_raises', e, feats, feats)
+            return
+        vals = np.asarray(df['Value'], dtype=float).reshape(n, -1)
+        for j in range(n):
+            ctx.count('shared_generator_samples')
+            key = np.round(vals[j], 9).tobytes()
+            if key in seen and seen[key][0] != c:
+                ctx.violation('generator_advanced_streams_independent',
+                              'shared_generator_repeats_noise:'
+                              'PriorPredictiveModel',
+                              {'first (call, sample)': seen[key],
+                               'again (call, sample)': (c, j + 1),
+                               'values': vals[j][:6]}, feats)
+                return
+            seen[key] = (c, j + 1)
+
+
 def independence_case(ctx, rng, idx):
     """streams of different outputs / time points / individuals"""
     kind = ['predictive_outputs', 'predictive_times', 'population_outputs',
@@ -552,4 +592,5 @@ FAMILIES = [
            thorough=8 * 400),
     Family('independence', independence_case, quick=84, thorough=840),
     Family('seed_sweep', seed_sweep_case, quick=8 * 8, thorough=8 * 60),
+    Family('shared_generator', shared_generator_case, quick=1, thorough=3),
 ]
